@@ -95,7 +95,7 @@ RULE = ("cases: rt = random key/value hierarchy (shared groups, depth<=4) spelle
         "distinct = distinct op lines; non-trivial = the independent oracle made a claim (inside the dialect / syntax)")
 ASSUMPTIONS = [
     "the Lean model lean/DuneVerif/Model/C12.lean is hand-written; the data it is written with (character sets, markers, offsets, word table, conditions) is tied to the source by tr_c12.py + the src_* theorems, its control flow only by this differential run",
-    "tr_c12.py reads the source with a statement-level parser, checked rewrite rules into a normal form, regular expressions and small parsers (no C++ front end, no types, no overload resolution); what it canonicalises is listed in its docstring; its purity / `variable is not modified` judgements are textual and conservative, and the rewrite rules themselves are trusted (they are exercised by harmless/C12_* and must keep every seeded/C12_* caught)",
+    "tr_c12.py reads the source with a statement-level parser, checked rewrite rules into a normal form, regular expressions and small parsers (no C++ front end, no types, no overload resolution); what it canonicalises is listed in its docstring; its purity / `variable is not modified` judgements are textual and conservative except for aliases (a change of a variable through a reference or pointer to it is not seen) and for names captured when a helper is inlined (a caller's local with the name of a member or global the helper uses), and the rewrite rules themselves are trusted (they are exercised by harmless/C12_* and must keep every seeded/C12_* caught)",
     "bytes are modelled as Lean Char values < 256; std::string/std::istringstream/getline behave as specified",
     "operator>> for built-in integers/double/std::string is libstdc++'s classic-locale num_get (modelled, not verified); strtod is correctly rounded",
     "the hostile stream is checked for termination/exception class only (60 s alarm per op)",
